@@ -33,12 +33,14 @@ func (l *Lexer) NewTokenAt(tokenType token.Type, literal string, startLine, star
 
 func baseNextToken(l *Lexer) token.Token {
 	var tok token.Token
+	// position of the first character, for two-character operators
+	opLine, opColumn := l.Line, l.Column
 
 	switch l.CurrentChar {
 	case '=':
 		if l.PeekChar() == '=' {
 			l.ReadChar()
-			tok = l.NewToken(token.EQ, "==")
+			tok = l.NewTokenAt(token.EQ, "==", opLine, opColumn)
 		} else {
 			tok = l.NewToken(token.ASSIGN, string(l.CurrentChar))
 		}
@@ -46,7 +48,7 @@ func baseNextToken(l *Lexer) token.Token {
 		if l.PeekChar() == '=' {
 			ch := l.CurrentChar
 			l.ReadChar()
-			tok = l.NewToken(token.NOT_EQ, string(ch)+string(l.CurrentChar))
+			tok = l.NewTokenAt(token.NOT_EQ, string(ch)+string(l.CurrentChar), opLine, opColumn)
 		} else {
 			tok = l.NewToken(token.NOT, string(l.CurrentChar))
 		}
@@ -54,7 +56,7 @@ func baseNextToken(l *Lexer) token.Token {
 		if l.PeekChar() == '=' {
 			ch := l.CurrentChar
 			l.ReadChar()
-			tok = l.NewToken(token.LTE, string(ch)+string(l.CurrentChar))
+			tok = l.NewTokenAt(token.LTE, string(ch)+string(l.CurrentChar), opLine, opColumn)
 		} else {
 			tok = l.NewToken(token.LT, string(l.CurrentChar))
 		}
@@ -62,7 +64,7 @@ func baseNextToken(l *Lexer) token.Token {
 		if l.PeekChar() == '=' {
 			ch := l.CurrentChar
 			l.ReadChar()
-			tok = l.NewToken(token.GTE, string(ch)+string(l.CurrentChar))
+			tok = l.NewTokenAt(token.GTE, string(ch)+string(l.CurrentChar), opLine, opColumn)
 		} else {
 			tok = l.NewToken(token.GT, string(l.CurrentChar))
 		}
@@ -70,7 +72,7 @@ func baseNextToken(l *Lexer) token.Token {
 		if l.PeekChar() == '&' {
 			ch := l.CurrentChar
 			l.ReadChar()
-			tok = l.NewToken(token.AND, string(ch)+string(l.CurrentChar))
+			tok = l.NewTokenAt(token.AND, string(ch)+string(l.CurrentChar), opLine, opColumn)
 		} else {
 			tok = l.NewToken(token.ILLEGAL, string(l.CurrentChar))
 		}
@@ -78,7 +80,7 @@ func baseNextToken(l *Lexer) token.Token {
 		if l.PeekChar() == '|' {
 			ch := l.CurrentChar
 			l.ReadChar()
-			tok = l.NewToken(token.OR, string(ch)+string(l.CurrentChar))
+			tok = l.NewTokenAt(token.OR, string(ch)+string(l.CurrentChar), opLine, opColumn)
 		} else {
 			tok = l.NewToken(token.ILLEGAL, string(l.CurrentChar))
 		}
@@ -86,11 +88,11 @@ func baseNextToken(l *Lexer) token.Token {
 		if l.PeekChar() == '+' {
 			ch := l.CurrentChar
 			l.ReadChar()
-			tok = l.NewToken(token.INCREMENT, string(ch)+string(l.CurrentChar))
+			tok = l.NewTokenAt(token.INCREMENT, string(ch)+string(l.CurrentChar), opLine, opColumn)
 		} else if l.PeekChar() == '=' {
 			ch := l.CurrentChar
 			l.ReadChar()
-			tok = l.NewToken(token.PLUS_ASSIGN, string(ch)+string(l.CurrentChar))
+			tok = l.NewTokenAt(token.PLUS_ASSIGN, string(ch)+string(l.CurrentChar), opLine, opColumn)
 		} else {
 			tok = l.NewToken(token.PLUS, string(l.CurrentChar))
 		}
@@ -98,11 +100,11 @@ func baseNextToken(l *Lexer) token.Token {
 		if l.PeekChar() == '-' {
 			ch := l.CurrentChar
 			l.ReadChar()
-			tok = l.NewToken(token.DECREMENT, string(ch)+string(l.CurrentChar))
+			tok = l.NewTokenAt(token.DECREMENT, string(ch)+string(l.CurrentChar), opLine, opColumn)
 		} else if l.PeekChar() == '=' {
 			ch := l.CurrentChar
 			l.ReadChar()
-			tok = l.NewToken(token.MINUS_ASSIGN, string(ch)+string(l.CurrentChar))
+			tok = l.NewTokenAt(token.MINUS_ASSIGN, string(ch)+string(l.CurrentChar), opLine, opColumn)
 		} else {
 			tok = l.NewToken(token.MINUS, string(l.CurrentChar))
 		}
